@@ -187,8 +187,18 @@ def run(ctx):
               'p-th call, never re-estimated per sub-block otherwise', what=('return', 'heap'),
               no_inline=(Q + 'quantize_real', DSM + 'estimate_stats'))
     from .c15 import REF_GET, MA
-    agree_ref(ctx, ctx.func(MA + 'get_samples'), REF_GET, 'array source: successive requests deliver contiguous, correctly delayed samples',
-              what=('return', 'attrstores', 'calls', 'substores'), max_depth=0, expand=False)
+    # (precondition: delay_i <= max_delay for every antenna, established by __init__ -- C15-D1)
+    from .common import delay_within_max
+    T.GE0_PATTERNS.append(delay_within_max)
+    had_ns = 'num_samples' in T.POSITIVE
+    T.POSITIVE.add('num_samples')           # (a request is asserted to be longer than max_delay >= 0)
+    try:
+        agree_ref(ctx, ctx.func(MA + 'get_samples'), REF_GET, 'array source: successive requests deliver contiguous, correctly delayed samples',
+                  what=('return', 'attrstores', 'calls', 'substores'), max_depth=0, expand=False)
+    finally:
+        T.GE0_PATTERNS.remove(delay_within_max)
+        if not had_ns:
+            T.POSITIVE.discard('num_samples')
     # the cached background tails (and the samples handed to the backend) are views of a stream's buffer: they stay valid
     # across requests only if every request gets a new buffer
     fresh_request_buffer(ctx)
